@@ -436,6 +436,47 @@ func genC03(r *Rng, tier string, emit func(string, Tok)) {
 			}
 		}
 	}
+	// sections whose section_length is too short for what their table id promises (0..12 for the tables that carry a
+	// syntax header and a CRC_32), and descriptors of every tag with a length of 0..6 inside a PMT and an SDT: the
+	// parsers index what is not there unless every length is checked
+	mkPSI := func(pid uint16, unit []byte) []byte {
+		cc := byte(r.Intn(16))
+		u := &refUnit{PID: pid, IsPSI: true, Bytes: unit, MinFirst: len(unit), TailFF: r.Bool()}
+		var d []byte
+		for _, p := range packetiseUnit(r, u, 0, &cc, false) {
+			d = append(d, p.encode()...)
+		}
+		return d
+	}
+	for _, tid := range []int{0x00, 0x02, 0x40, 0x42, 0x46, 0x4e, 0x4f, 0x50, 0x73, 0x70, 0x72} {
+		for sl := 0; sl <= 12; sl++ {
+			if tier != "thorough" && sl > 5 && r.Chance(1, 2) {
+				continue
+			}
+			unit := append([]byte{0, byte(tid), 0xb0 | byte(sl>>8), byte(sl)}, r.Bytes(sl)...)
+			unit = append(unit, r.Bytes(r.Intn(8))...)
+			pid := uint16([]int{0, 0x11, 0x12, 0x14, 0x10}[r.Intn(5)])
+			emit("tiny-section-length", scenario{kind: r.Intn(3), optSize: 188, fault: -1, data: mkPSI(pid, unit), ops: []int{3, 1, 0}}.tok())
+		}
+	}
+	for tag := 0; tag < 256; tag++ {
+		if _, typed := c14TagName[uint8(tag)]; tier != "thorough" && !typed && tag%16 != 0 {
+			continue // quick: every typed tag, a sample of the others
+		}
+		for dl := 0; dl <= 6; dl++ {
+			desc := append([]byte{byte(tag), byte(dl)}, r.Bytes(dl)...)
+			// a PMT (table_id 2) with this descriptor in its program loop and in one stream's loop, CRC not repaired:
+			// descriptors are parsed before the CRC is looked at
+			body := []byte{0x00, 0x01, 0xc1, 0x00, 0x00, 0xe1, 0x00, 0xf0, byte(len(desc))}
+			body = append(body, desc...)
+			body = append(body, 0x1b, 0xe1, 0x01, 0xf0, byte(len(desc)))
+			body = append(body, desc...)
+			body = append(body, r.Bytes(4)...)
+			unit := append([]byte{0, 0x02, 0xb0, byte(len(body))}, body...)
+			pid := uint16([]int{0x12, 0x11, 0x14}[r.Intn(3)]) // parsed as PSI without a PAT
+			emit("tiny-descriptors", scenario{kind: r.Intn(3), optSize: 188, fault: -1, data: mkPSI(pid, unit), ops: []int{3, 1, 0}}.tok())
+		}
+	}
 	// packets that carry the payload flag and no payload byte (adaptation_field_length 183 with adaptation_field_control
 	// '11': not conformant, but a receiver sees such packets), first / middle / last in the queue of a PSI PID and of a
 	// PES PID, followed by continuations
